@@ -21,6 +21,7 @@ KF_KINDS = {
     "init-false": "schema-init-false-field",
     "union-pack": "union-speculative-packer",
     "omit-none-required": "schema-omit-none-required",
+    "nt-ovc": "schema-nt-override-in-containers",
 }
 
 _modn = [0]
@@ -92,7 +93,9 @@ def json_key(k) -> str:
 class Sites:
     def __init__(self, tbl, m, all_refs, doc=None):
         self.tbl, self.m, self.all_refs, self.doc = tbl, m, all_refs, doc
-        self.ntd = False        # named tuples are serialized as dicts at the current position
+        self.ntd = False        # the serializer writes named tuples as dicts at the current position
+        self.nts = False        # ... the schema describes them as objects at the current position
+        self.base = False       # class-wide option of the owning dataclass
         self.out: list[tuple[tuple, str]] = []
         self._enc = {}
         clash = {}
@@ -176,8 +179,14 @@ class Sites:
                 encs = [json.dumps(jround(self.enc_key(t[1], x)), sort_keys=True) for x in items]
                 if len(set(encs)) < len(encs):
                     self.out.append((path, "set-collision"))
-            for i, x in enumerate(items):
-                self.walk(t[1], x, path + (i,))
+            saved = self.ntd
+            if k != "tuplevar":         # the serializer forgets a field's serialize override inside list/set elements
+                self.ntd = self.base
+            try:
+                for i, x in enumerate(items):
+                    self.walk(t[1], x, path + (i,))
+            finally:
+                self.ntd = saved
             return
         if k == "tuple":
             args = t[1]
@@ -198,13 +207,18 @@ class Sites:
                 self.walk(args[u + 1 + j], v[i], path + (i,))
             return
         if k in ("dict", "mapping", "ordereddict", "defaultdict"):
-            for kk, x in v.items():
-                ek = self.enc_key(t[1], kk)
-                js = json_key(ek)
-                if not isinstance(ek, str):
-                    self.out.append((path, "nonstr-key"))
-                self.walk(t[1], kk, path)        # defects inside keys surface at the object
-                self.walk(t[2], x, path + (js,))
+            saved = self.ntd
+            self.ntd = self.base         # ... and inside mapping keys / values
+            try:
+                for kk, x in v.items():
+                    ek = self.enc_key(t[1], kk)
+                    js = json_key(ek)
+                    if not isinstance(ek, str):
+                        self.out.append((path, "nonstr-key"))
+                    self.walk(t[1], kk, path)        # defects inside keys surface at the object
+                    self.walk(t[2], x, path + (js,))
+            finally:
+                self.ntd = saved
             return
         if k == "counter":
             for kk in v:
@@ -256,26 +270,29 @@ class Sites:
             if self.all_refs and d["clsname"] in self.clash_names:
                 self.out.append((path, "bare-name"))
             cfg = d.get("cfg") or {}
-            saved = self.ntd
+            saved = (self.ntd, self.nts, self.base)
             for f in d["fields"]:
                 key = f["alias"] if f["alias"] is not None else f["name"]
                 if not f["init"]:
                     self.out.append((path, "init-false"))
                 fv = getattr(v, f["name"])
-                if cfg.get("omit_none") and fv is None:
+                if cfg.get("omit_none") and fv is None and nullable_spec(G.subst(f["type"], e2)):
                     # the key is dropped; for a field without default the schema still requires it (known finding)
                     if f["default"] is None and f["init"]:
                         self.out.append((path, "omit-none-required"))
                     continue
                 # class-wide option of this owner, overridden per field; nested dataclasses use their own
-                self.ntd = {"as_dict": True, "as_list": False}.get(f.get("nt_override"), bool(cfg.get("nt_as_dict")))
+                self.base = bool(cfg.get("nt_as_dict"))
+                self.ntd = self.nts = {"as_dict": True, "as_list": False}.get(f.get("nt_override"), self.base)
                 try:
                     self.walk(f["type"], fv, path + (key,), e2)
                 finally:
-                    self.ntd = saved
+                    self.ntd, self.nts, self.base = saved
             return
         if k == "nt":
             d = tbl.by_name[t[1]]
+            if self.ntd != self.nts:
+                self.out.append((path, "nt-ovc"))
             for i, f in enumerate(d["fields"]):
                 self.walk(f["type"], v[i], path + ((f["name"],) if self.ntd else (i,)))
             return
@@ -309,8 +326,11 @@ class Sites:
             self.walk(args[u + 1 + j], v[i], path + (off + i,))
 
 
+nullable_spec = G.nullable_spec
+
+
 VALIDATOR_OF = {"flag": {"enum", "const"}, "set-collision": {"uniqueItems"}, "tz": {"pattern"},
-                "init-false": {"additionalProperties"}, "omit-none-required": {"required"}}
+                "init-false": {"additionalProperties"}, "omit-none-required": {"required"}, "nt-ovc": {"type"}}
 
 
 def explain(err, sites) -> set:
@@ -720,7 +740,9 @@ def model_part(ctx: vlib.Ctx):
     import py2gallina
     br = ctx.theorems("props/C06_schema.vo", ["C06_sound_partial", "C06_tz_pattern", "C06_required_iff_no_default", "C06_satisfiable",
                                               "C06_sound_full_refuted", "C06_flag_refuted", "C06_intkey_refuted", "C06_shared_defs_refuted",
-                                              "C06_set_collision_refuted", "C06_init_false_refuted"], kernels=["K6"])
+                                              "C06_set_collision_refuted", "C06_init_false_refuted",
+                                              "C06_nt_override_container_refuted", "C06_omit_none_required_refuted",
+                                              "C06_nt_mode_schema", "C06_nt_mode_pack"], kernels=["K6", "K6N"])
     r = ctx.rng
     want = ctx.budget(150, 1000)
     a_cases, b_cases, c_cases, a_descr, b_descr, c_descr = [], [], [], [], [], []
@@ -751,12 +773,6 @@ def model_part(ctx: vlib.Ctx):
                 ctx.hist("model_skipped", "unsupported:" + type(e).__name__)
                 continue
             em = M.Emitter(tbl, m.__dict__)
-            datas = [d for d in tbl.decls if d["kind"] == "data"]
-            if any((d.get("cfg") or {}).get("nt_as_dict") or any(f.get("nt_override") == "as_dict" for f in d["fields"]) for d in datas):
-                # NamedTuple-as-dict positions are outside the model grammar (covered by the direct oracle only)
-                ctx.hist("model_skipped", "namedtuple-as-dict")
-                continue
-            omit = any((d.get("cfg") or {}).get("omit_none") for d in datas)   # enc_ok describes default options: all keys present
             clash = M.has_name_clash(tbl)
             try:
                 env_t, ty_t = em.env(), em.ty(root)
@@ -806,7 +822,7 @@ def model_part(ctx: vlib.Ctx):
                 collide = any(kd == "set-collision" for _, kd in st.out)
                 if collide:       # excluded by the conformance predicate (enc_ok demands distinct element encodings)
                     ctx.hist("model_skipped", "enc_ok:set-wire-collision")
-                if usafe and not collide and not omit:
+                if usafe and not collide:
                     c_cases.append(f"({env_t}, {ty_t}, {vt}, {dt}, {M.cbool(real_valid)})")
                     c_descr.append(G.ty_src(root, tbl, [])[:120] + " | " + G.val_src(vs)[:120])
                     c_src.append({"source": src, "value": G.val_src(vs), "document": doc})
@@ -847,7 +863,7 @@ def model_part(ctx: vlib.Ctx):
     runs = [
         ("schema-model-vs-build_json_schema", "c06_a", a_cases, a_descr,
          "fun c => match c with (E, t, combos) => forallb (fun x => match x with (pre, ar, rs, rdefs) => "
-         "match schema_f E (mkD pre) ar 60 t with Some s => schema_eqb 60 s rs | None => false end && "
+         "match schema_f E (mkD pre) ar false 60 t with Some s => schema_eqb 60 s rs | None => false end && "
          "match defs_f E (mkD pre) ar 60 (classes E) with Some ds => forallb (fun kd => match assoc ds (fst kd) with "
          "Some s' => schema_eqb 60 s' (snd kd) | None => false end) rdefs | None => false end end) combos end",
          "env * ty * list (string * bool * schema * list (string * schema))", ""),
@@ -855,7 +871,7 @@ def model_part(ctx: vlib.Ctx):
          "fun c => match c with (ds, s, j, e) => Bool.eqb (jvalid pm ds 200 s j) e end",
          "list (string * schema) * schema * json * bool", defs),
         ("enc_ok-admits-to_dict+domain", "c06_c", c_cases, c_descr,
-         "fun c => match c with (E, t, v, j, rv) => enc_ok 100 E t v j && (negb (ty_ok 60 E t && env_ok E) || rv) end",
+         "fun c => match c with (E, t, v, j, rv) => enc_ok 100 E false false t v j && (negb (ty_ok 60 E false false t && env_ok E) || rv) end",
          "env * ty * value * json * bool", ""),
     ]
     for name, fname, cases, descr, okf, ctype, dfs in runs:
@@ -976,6 +992,22 @@ def run_fixed(ctx, descr, src, vals):
         unload_module(m)
 
 
+def coqchk_part(ctx: vlib.Ctx):
+    """thorough tier: the compiled property files are re-checked by the independent checker coqchk"""
+    import re
+    mods = ["VerifProps.C06_schema", "VerifProps.C06_k6", "VerifProps.C06_alias"]
+    rc, out, secs = vlib.run(["timeout", "1500", "coqchk", "-silent", "-o", "-Q", "theories", "Verif", "-Q", "gen", "VerifGen",
+                              "-Q", "props", "VerifProps"] + mods, cwd=vlib.COQ, timeout=1600)
+    m = re.search(r"\* Axioms:\s*(.*?)\n\s*\n", out, re.S)
+    axioms = " ".join(m.group(1).split()) if m else "?"
+    clean = rc == 0 and axioms == "<none>" and all(f"relying on {x}: <none>" in " ".join(out.split())
+                                                     for x in ("type-in-type", "unsafe (co)fixpoints"))
+    ctx.obligation("coqchk -o " + " ".join(mods), clean, f"exit {rc}, Axioms: {axioms}, {secs:.0f}s")
+    ctx.trusted.append(f"coqchk -o on {', '.join(mods)}: Axioms: {axioms} (exit {rc})")
+    if not clean:
+        ctx.not_shown("coqchk", out[-1500:])
+
+
 def run(ctx: vlib.Ctx):
     ctx.coverage["rule"] = ("random class tables + root types over the supported grammar (scalars, 19 stdlib leaves, 5 enum bases, Literal, "
                             "List/Sequence/Deque/Set/FrozenSet/Tuple var+fixed+Unpack (nested), Dict/Mapping/OrderedDict/DefaultDict/Counter/"
@@ -994,6 +1026,8 @@ def run(ctx: vlib.Ctx):
     alias_part(ctx)
     model_part(ctx)
     fixed_part(ctx)
+    if not ctx.quick():
+        coqchk_part(ctx)
     n = oracle(ctx, ctx.budget(250, 2000), 4)
     ctx.notes.append(f"oracle validations: {n}")
 
